@@ -130,22 +130,25 @@ def cli_case(ctx, idx, rng_seed):
 
 
 def ff_timing_case(ctx, idx, workers):
-    n = 13
-    edges = []
-    kinds = ["exit"] + [None] * 12
-    sleep = [0] + [0.35] * 12
-    ws = W.CliWs(ctx, f"c05-ff-{idx}", n, edges, kinds=kinds, sleep=sleep, workers=workers)
+    # 4 failing and 24 slow independent targets: the order in which the pool takes them is random, the first failing one
+    # is reached early with high probability; without fail-fast cancellation the remaining sleepers keep starting for seconds
+    nfail, nslow = 4, 24
+    n = nfail + nslow
+    kinds = ["exit"] * nfail + [None] * nslow
+    sleep = [0] * nfail + [0.25] * nslow
+    ws = W.CliWs(ctx, f"c05-ff-{idx}", n, [], kinds=kinds, sleep=sleep, workers=workers)
     b = ws.build(flags=("--fail-fast",))
     tr = b["trace"]
     res = {"n": n, "family": "ff-timing", "workers": workers, "rc": b["rc"], "wall": round(b["wall"], 2), "bad": []}
-    s0 = [t for k, m, t in tr if k == "s" and m == 0]
+    s0 = sorted(t for k, m, t in tr if k == "s" and m < nfail)
     if b["rc"] == 0:
         res["bad"].append(("failure-exit-zero", "fail-fast build with a failing target exited 0"))
     if s0:
-        late = [(m, round((t - s0[0]) / 1e9, 2)) for k, m, t in tr if k == "s" and m != 0 and t > s0[0] + 1.0e9]
+        late = [(m, round((t - s0[0]) / 1e9, 2)) for k, m, t in tr if k == "s" and t > s0[0] + 1.0e9]
         res["late_starts"] = late
+        res["first_failure_after_s"] = round((s0[0] - min(t for _, _, t in tr)) / 1e9, 2)
         if late:
-            res["bad"].append(("command-started-after-fail-fast", f"commands started {late} s after the failing command (slack 1 s)"))
+            res["bad"].append(("command-started-after-fail-fast", f"commands started {late[:6]} s after the first failing command (slack 1 s)"))
     res["started"] = sorted({m for k, m, _ in tr if k == "s"})
     if res["bad"]:
         res["out"] = b["out"][-1200:]
@@ -197,6 +200,37 @@ def run(ctx):
     ctx.coverage["walker_fail_fast"] = sum(1 for c in cases if c["failFast"])
     ctx.coverage["traces_validated_against_impl"] = len(cases)
     ctx.coverage["trace_events_replayed"] = sum(len(o.get("trace", [])) for o in outs)
+    # ---- (a2) step-level correspondence of onComplete ------------------------------------------------
+    scases = []
+    for _ in range(150 if quick else 2000):
+        c = W.make_case(rng, maxn=40, workers=0)
+        c["unsel"] = c["unsel"] if rng.random() < 0.3 else []
+        if not c["fail"] and rng.random() < 0.7:
+            c["fail"] = [rng.randrange(c["n"])]
+            if W.path_count(c["n"], c["edges"], c["fail"][0]) > 20000:
+                c["fail"] = []
+        scases.append(c)
+    for a, b in ((2, 1), (3, 4), (8, 8)):
+        for ff in (False, True):
+            n, e, fam = W.g_bipartite(a, b)
+            c = W.make_case(rng, family=(n, e, fam), workers=0, fail_fast=ff)
+            c.update(fail=[0], unsel=[])
+            scases.append(c)
+    sbad, sinfo = W.run_steps(ctx, scases)
+    if not sinfo["built"]:
+        ctx.harness_broken("go test of the onComplete step harness failed to build/run against the current tree", sinfo["raw"])
+    ctx.coverage["oncomplete_step_cases"] = sinfo["n"]
+    ctx.coverage["oncomplete_steps_compared"] = sinfo["steps"]
+    ctx.coverage["oncomplete_step_disagreements"] = len(sbad)
+    for c, real, m, k in sbad[:1]:
+        orc = W.step_oracle(c, real)
+        if orc:
+            for prop, sig, msg in orc:
+                ctx.violation(msg, {"kind": "oracle", "oracle": "onComplete step records", "case": c, "steps": real}, signature=sig)
+        else:
+            ctx.violation("onComplete of the real walker and the model's `complete` event disagree: " + W.describe_step_diff(c, real, m, k),
+                          {"kind": "correspondence", "correspondence": "TestVerifOnCompleteSteps vs walker.steps", "case": c, "steps": real,
+                           "model": m}, found_input=False)
     # ---- (b) CLI histories --------------------------------------------------------------------------
     if ctx.grog_binary() is None:
         return
